@@ -183,9 +183,12 @@ def check_text(b, pl, er, ddef, text, skeleton, cls, nontrivial):
         except Exception as ex:
             b.count("cpython_raised", type(ex).__name__)
             continue
+        # the same operand types on both sides (floats): with exact ints on one side only, results beyond 2**53 differ
+        # legitimately (21 ** 32 % -4 is -3 exactly and -0.0 in floating point)
+        fenv = {k: (float(v) if not isinstance(v, bool) else v) for k, v in env.items()}
         try:
-            got = interp(tree, env, er)
-            got2 = interp(tree2, env, er)
+            got = interp(tree, fenv, er)
+            got2 = interp(tree2, fenv, er)
         except (ZeroDivisionError, OverflowError):
             b.count("interp_arith_error")
             continue
